@@ -9,6 +9,7 @@ import (
 	"net"
 	"net/http"
 	"os"
+	"sort"
 	"strings"
 	"sync"
 	"sync/atomic"
@@ -25,6 +26,7 @@ import (
 
 	"verif/internal/mon"
 	"verif/internal/svc"
+	"verif/internal/vschema"
 	"verif/internal/wire"
 )
 
@@ -42,6 +44,7 @@ type CancelCase struct {
 	How       string `json:"how"`     // ctx | pipe | tcp | tcp-rst
 	DelayUS   int    `json:"delay_us"`
 	Get       bool   `json:"get,omitempty"` // h*-http: body-less GET binding
+	Opts      Opts   `json:"opts"`          // mux options installed on the server (see opts15.go)
 }
 
 func (c *CancelCase) class() string {
@@ -49,7 +52,11 @@ func (c *CancelCase) class() string {
 	if c.Timeout {
 		t = "+timeout"
 	}
-	return fmt.Sprintf("%s/%s:%s%s", c.Transport, c.Shape, c.State, t)
+	w := ""
+	if !c.Opts.none() {
+		w = ":with=" + c.Opts.key()
+	}
+	return fmt.Sprintf("%s/%s:%s%s%s", c.Transport, c.Shape, c.State, t, w)
 }
 
 const (
@@ -67,11 +74,11 @@ type cscn struct {
 }
 
 type cancelSvc struct {
-	std  *svc.Std
-	mux  *larking.Mux
-	srv  *wire.Server
-	scns sync.Map
-	seq  int64
+	std   *svc.Std
+	muSrv sync.Mutex
+	srvs  map[string]*wire.Server // one real server per option mask
+	scns  sync.Map
+	seq   int64
 }
 
 func newCancelSvc() (*cancelSvc, error) {
@@ -79,36 +86,72 @@ func newCancelSvc() (*cancelSvc, error) {
 	if err != nil {
 		return nil, err
 	}
-	s := &cancelSvc{std: std}
-	if s.mux, err = newMux(std, s.unary, s.stream); err != nil {
-		return nil, err
-	}
-	// The mux is mounted at "/" behind a boundary handler that only records
-	// when net/http cancels the request context (what larking is told).
-	s.srv, err = wire.StartLarking(s.mux, nil, larking.MuxHandleOption("/__unused"), larking.HTTPHandlerOption("/", http.HandlerFunc(s.boundary)))
+	s := &cancelSvc{std: std, srvs: map[string]*wire.Server{}}
+	_, err = s.serverFor(Opts{})
 	return s, err
 }
 
-func (s *cancelSvc) boundary(w http.ResponseWriter, r *http.Request) {
-	var sc *cscn
-	if v, ok := s.scns.Load(r.Header.Get("X-Scn")); ok {
-		sc = v.(*cscn)
-		ctx := r.Context()
-		ret := make(chan struct{})
-		defer close(ret)
-		go func() {
-			select {
-			case <-ctx.Done():
-				sc.log.log("req-ctx-done", ctx.Err(), 0)
-			case <-ret:
-			}
-		}()
-		sc.log.log("serve-enter", nil, 0)
+// serverFor returns the real server whose mux has the given options. The mux
+// is mounted at "/" behind a boundary handler that only records when net/http
+// cancels the request context (what larking is told).
+func (s *cancelSvc) serverFor(o Opts) (*wire.Server, error) {
+	s.muSrv.Lock()
+	defer s.muSrv.Unlock()
+	if srv := s.srvs[o.key()]; srv != nil {
+		return srv, nil
 	}
-	s.mux.ServeHTTP(w, r)
-	if sc != nil {
-		sc.log.log("serve-return", nil, 0)
+	mux, err := newMux(s.std, s.unary, s.stream, c15MuxOptions(o)...)
+	if err != nil {
+		return nil, err
 	}
+	srv, err := wire.StartLarking(mux, nil, larking.MuxHandleOption("/__unused"), larking.HTTPHandlerOption("/", s.boundary(mux)))
+	if err != nil {
+		return nil, err
+	}
+	s.srvs[o.key()] = srv
+	return srv, nil
+}
+
+func (s *cancelSvc) Close() {
+	s.muSrv.Lock()
+	defer s.muSrv.Unlock()
+	for _, srv := range s.srvs {
+		srv.Close()
+	}
+}
+
+func (s *cancelSvc) errLogs() string {
+	s.muSrv.Lock()
+	defer s.muSrv.Unlock()
+	var sb strings.Builder
+	for _, srv := range s.srvs {
+		sb.WriteString(srv.ErrLog())
+	}
+	return sb.String()
+}
+
+func (s *cancelSvc) boundary(mux *larking.Mux) http.Handler {
+	return http.HandlerFunc(func(w http.ResponseWriter, r *http.Request) {
+		var sc *cscn
+		if v, ok := s.scns.Load(r.Header.Get("X-Scn")); ok {
+			sc = v.(*cscn)
+			ctx := r.Context()
+			ret := make(chan struct{})
+			defer close(ret)
+			go func() {
+				select {
+				case <-ctx.Done():
+					sc.log.log("req-ctx-done", ctx.Err(), 0)
+				case <-ret:
+				}
+			}()
+			sc.log.log("serve-enter", nil, 0)
+		}
+		mux.ServeHTTP(w, r)
+		if sc != nil {
+			sc.log.log("serve-return", nil, 0)
+		}
+	})
 }
 
 func (s *cancelSvc) lookup(ctx context.Context) *cscn {
@@ -141,11 +184,21 @@ func (s *cancelSvc) unary(ctx context.Context, md protoreflect.MethodDescriptor,
 	sc.log.log("recv-enter", nil, 0)
 	err := dec(in)
 	sc.log.log("recv-return", err, 0)
-	if err == nil {
-		sc.log.log("idle", nil, 0)
+	if err != nil {
+		sc.awaitCtx(ctx)
+		return nil, errScenarioEnd
 	}
-	sc.awaitCtx(ctx)
-	return nil, errScenarioEnd
+	// the user handler runs behind the interceptor chain, under the context
+	// the interceptor hands it
+	h := func(ctx context.Context, req interface{}) (interface{}, error) {
+		sc.log.log("idle", nil, 0)
+		sc.awaitCtx(ctx)
+		return nil, errScenarioEnd
+	}
+	if icpt == nil {
+		return h(ctx, in)
+	}
+	return icpt(ctx, in, &grpc.UnaryServerInfo{FullMethod: vschema.FullMethod(md)}, h)
 }
 
 func (s *cancelSvc) stream(md protoreflect.MethodDescriptor, ss grpc.ServerStream) error {
@@ -329,9 +382,9 @@ func plan(c *CancelCase) (n int, halfClose, partial bool) {
 	return c.K, false, false
 }
 
-func (s *cancelSvc) startGRPCGo(sc *cscn) (*cancelClient, error) {
+func (s *cancelSvc) startGRPCGo(sc *cscn, srv *wire.Server) (*cancelClient, error) {
 	c := sc.spec
-	cc, err := wire.Dial(s.srv.Addr)
+	cc, err := wire.Dial(srv.Addr)
 	if err != nil {
 		return nil, err
 	}
@@ -363,19 +416,19 @@ func (s *cancelSvc) startGRPCGo(sc *cscn) (*cancelClient, error) {
 	return &cancelClient{cancel: cancel, close: func() { cancel(); cc.Close() }}, nil
 }
 
-func (s *cancelSvc) startH2C(sc *cscn) (*cancelClient, error) {
+func (s *cancelSvc) startH2C(sc *cscn, srv *wire.Server) (*cancelClient, error) {
 	c := sc.spec
 	client := wire.H2CClient()
 	ctx, cancel := context.WithCancel(context.Background())
 	n, half, _ := plan(c)
 	var body io.Reader
 	var pw *io.PipeWriter
-	verb, url := "POST", s.srv.URL+s.std.Full(s.methodOf(c.Shape))
+	verb, url := "POST", srv.URL+s.std.Full(s.methodOf(c.Shape))
 	isHTTP := c.Transport == "h2c-http"
 	if isHTTP {
 		var p string
 		verb, p = s.httpPath(c)
-		url = s.srv.URL + p
+		url = srv.URL + p
 	}
 	if verb != "GET" {
 		var pr *io.PipeReader
@@ -462,9 +515,9 @@ func (s *cancelSvc) startH2C(sc *cscn) (*cancelClient, error) {
 	return cl, nil
 }
 
-func (s *cancelSvc) startH1(sc *cscn) (*cancelClient, error) {
+func (s *cancelSvc) startH1(sc *cscn, srv *wire.Server) (*cancelClient, error) {
 	c := sc.spec
-	conn, err := net.Dial("tcp", s.srv.Addr)
+	conn, err := net.Dial("tcp", srv.Addr)
 	if err != nil {
 		return nil, err
 	}
@@ -533,7 +586,10 @@ type cancelOutcome struct {
 	inconclusive string
 }
 
-func (s *cancelSvc) runScenario(c *CancelCase) *cancelOutcome {
+// runScenario executes one scenario. onSlow, if non-nil, is called once when
+// the handler is still not released two seconds after the cancel (scheduling
+// hint for the caller only; the verdict is unaffected).
+func (s *cancelSvc) runScenario(c *CancelCase, onSlow func()) *cancelOutcome {
 	out := &cancelOutcome{}
 	sc := &cscn{
 		id:      fmt.Sprintf("c%d", atomic.AddInt64(&s.seq, 1)),
@@ -545,15 +601,19 @@ func (s *cancelSvc) runScenario(c *CancelCase) *cancelOutcome {
 	s.scns.Store(sc.id, sc)
 	defer s.scns.Delete(sc.id)
 
+	srv, err := s.serverFor(c.Opts)
+	if err != nil {
+		out.inconclusive = "server setup failed: " + err.Error()
+		return out
+	}
 	var cl *cancelClient
-	var err error
 	switch c.Transport {
 	case "grpcgo":
-		cl, err = s.startGRPCGo(sc)
+		cl, err = s.startGRPCGo(sc, srv)
 	case "h2c-grpc", "h2c-http":
-		cl, err = s.startH2C(sc)
+		cl, err = s.startH2C(sc, srv)
 	default:
-		cl, err = s.startH1(sc)
+		cl, err = s.startH1(sc, srv)
 	}
 	if err != nil {
 		out.inconclusive = "client setup failed: " + err.Error()
@@ -648,6 +708,10 @@ func (s *cancelSvc) runScenario(c *CancelCase) *cancelOutcome {
 		}
 		if time.Since(base) > releaseWatchdog || time.Since(tCancel) > 3*releaseWatchdog {
 			break
+		}
+		if onSlow != nil && time.Since(tCancel) > 2*time.Second {
+			onSlow()
+			onSlow = nil
 		}
 		time.Sleep(time.Millisecond)
 	}
@@ -820,7 +884,7 @@ func runCancels(r *mon.Run) {
 		r.Inconclusive("cancellation server setup: " + err.Error())
 		return
 	}
-	defer s.srv.Close()
+	defer s.Close()
 	rng := r.Rand("c15-cancel")
 	cases := cancelMatrix()
 	base := len(cases)
@@ -849,10 +913,28 @@ func runCancels(r *mon.Run) {
 		}
 	}
 	cases = append(cases, extra...)
-	total := r.Pick(len(cases), 3000)
+	// every cell under the all-off and the all-on option mask plus, in
+	// rotation, one of the other masks (quick) or under every mask (thorough)
+	masks := c15Masks()
+	cells := cases
+	cases = nil
+	others := []int{4, 1, 2, 5, 3, 6, 8}
+	for i, c := range cells {
+		pick := []int{0, others[i%len(others)], 7}
+		if r.Thorough() {
+			pick = []int{0, 1, 2, 3, 4, 5, 6, 7, 8}
+		}
+		for _, k := range pick {
+			d := c
+			d.Opts = masks[k]
+			cases = append(cases, d)
+		}
+	}
+	total := r.Pick(len(cases), len(cases)+3000)
 	sizes := []int{0, 2, 5, 100, 3000}
 	for len(cases) < total {
-		c := cases[rng.Intn(base)]
+		c := cells[rng.Intn(base)]
+		c.Opts = masks[rng.Intn(len(masks))]
 		c.K = rng.Intn(5)
 		c.MsgSize = sizes[rng.Intn(len(sizes))]
 		c.Timeout = rng.Intn(3) == 0
@@ -867,62 +949,135 @@ func runCancels(r *mon.Run) {
 		cases[i].normalise()
 	}
 
-	var violated sync.Map // class -> struct{}: do not spend 15 s again on a class already reported
-	var wg sync.WaitGroup
-	var next int64 = -1
-	workers := 8
-	for w := 0; w < workers; w++ {
-		wg.Add(1)
-		go func() {
-			defer wg.Done()
-			for {
-				i := int(atomic.AddInt64(&next, 1))
-				if i >= len(cases) {
-					return
-				}
-				c := &cases[i]
-				if _, ok := violated.Load(c.class()); ok {
-					r.Count("cancel_skipped_class_already_violated", 1)
-					continue
-				}
-				out := s.runScenario(c)
-				r.Eval(1)
-				r.Count("cancel_scenarios", 1)
-				if os.Getenv("VERIF_DEBUG") != "" {
-					debugScenario(c, out)
-				}
-				if out.inconclusive != "" {
-					r.Inconclusive(out.inconclusive)
-					r.Count("cancel_inconclusive", 1)
-					continue
-				}
-				if out.Note != "" {
-					r.Count("cancel_note_"+out.Note, 1)
-				}
-				for _, e := range out.Events {
-					switch e.Name {
-					case "req-ctx-done":
-						r.Count("cancel_request_ctx_cancelled_at_boundary", 1)
-					case "ctx-done":
-						r.Count("cancel_handler_ctx_done", 1)
-					}
-				}
-				for _, v := range out.vs {
-					violated.Store(c.class(), struct{}{})
-					r.Violate(v.key, v.what, map[string]any{"part": "cancel", "case": c, "events": out.Events, "goroutine": out.Goroutine})
-				}
-				if out.Observed && len(out.vs) == 0 {
-					r.Count("cancel_released_after_cancel", 1)
-					r.Distinct("cancel:" + c.class() + "/" + c.How)
-				}
-				if i%97 == 0 {
-					r.Sample(map[string]any{"case": c, "events": len(out.Events)})
-				}
-			}
-		}()
+	// A not-released verdict costs the 15 s watchdog. Scenarios therefore run
+	// in phases by the number of options installed (so that a defect is
+	// reported under the smallest mask that shows it); once a wedge is
+	// reported for (transport, mask), scenarios of that transport whose mask
+	// includes it are skipped, and while one looks wedged (2 s) they are
+	// deferred to the end of the phase instead of being started.
+	type wedge struct {
+		transport string
+		o         Opts
 	}
-	wg.Wait()
-	if log := s.srv.ErrLog(); strings.Contains(log, "panic serving") {
+	var wmu sync.Mutex
+	var wedges []wedge
+	suspects := map[int]wedge{}
+	covered := func(c *CancelCase) (confirmed, suspect bool) {
+		wmu.Lock()
+		defer wmu.Unlock()
+		for _, w := range wedges {
+			if w.transport == c.Transport && w.o.coveredBy(c.Opts) {
+				return true, false
+			}
+		}
+		for _, w := range suspects {
+			if w.transport == c.Transport && w.o.coveredBy(c.Opts) {
+				return false, true
+			}
+		}
+		return false, false
+	}
+	runOne := func(i int) {
+		c := &cases[i]
+		out := s.runScenario(c, func() {
+			wmu.Lock()
+			suspects[i] = wedge{c.Transport, c.Opts}
+			wmu.Unlock()
+		})
+		wmu.Lock()
+		delete(suspects, i)
+		wmu.Unlock()
+		r.Eval(1)
+		r.Count("cancel_scenarios", 1)
+		if os.Getenv("VERIF_DEBUG") != "" {
+			debugScenario(c, out)
+		}
+		if out.inconclusive != "" {
+			r.Inconclusive(out.inconclusive)
+			r.Count("cancel_inconclusive", 1)
+			return
+		}
+		if out.Note != "" {
+			r.Count("cancel_note_"+out.Note, 1)
+		}
+		for _, e := range out.Events {
+			switch e.Name {
+			case "req-ctx-done":
+				r.Count("cancel_request_ctx_cancelled_at_boundary", 1)
+			case "ctx-done":
+				r.Count("cancel_handler_ctx_done", 1)
+			}
+		}
+		if !c.Opts.none() {
+			r.Count("cancel_scenarios_with_mux_options", 1)
+		}
+		for _, v := range out.vs {
+			if strings.Contains(v.key, ":not-released:") {
+				wmu.Lock()
+				wedges = append(wedges, wedge{c.Transport, c.Opts})
+				wmu.Unlock()
+			}
+			r.Violate(v.key, v.what, map[string]any{"part": "cancel", "case": c, "events": out.Events, "goroutine": out.Goroutine})
+		}
+		if out.Observed && len(out.vs) == 0 {
+			r.Count("cancel_released_after_cancel", 1)
+			r.Distinct("cancel:" + c.class() + "/" + c.How)
+		}
+		if i%97 == 0 {
+			r.Sample(map[string]any{"case": c, "events": len(out.Events)})
+		}
+	}
+	nOn := func(o Opts) int {
+		n := 0
+		for _, b := range o.onOff() {
+			if b {
+				n++
+			}
+		}
+		return n
+	}
+	for phase := 0; phase <= 3; phase++ {
+		var queue []int
+		for i := range cases {
+			if nOn(cases[i].Opts) == phase {
+				queue = append(queue, i)
+			}
+		}
+		for round := 0; len(queue) > 0 && round < 3; round++ {
+			var dmu sync.Mutex
+			var deferred []int
+			var wg sync.WaitGroup
+			var next int64 = -1
+			for w := 0; w < 8; w++ {
+				wg.Add(1)
+				go func() {
+					defer wg.Done()
+					for {
+						k := int(atomic.AddInt64(&next, 1))
+						if k >= len(queue) {
+							return
+						}
+						i := queue[k]
+						confirmed, suspect := covered(&cases[i])
+						switch {
+						case confirmed:
+							r.Count("cancel_skipped_transport_and_options_already_reported_wedged", 1)
+						case suspect && round < 2:
+							dmu.Lock()
+							deferred = append(deferred, i)
+							dmu.Unlock()
+						default:
+							runOne(i)
+						}
+					}
+				}()
+			}
+			wg.Wait()
+			sort.Ints(deferred)
+			queue = deferred
+		}
+	}
+	if log := s.errLogs(); strings.Contains(log, "panic serving") {
 		r.Violate("panic:server-log:cancel", "the server logged a panic while serving cancellation scenarios: "+firstLines(log, 6), map[string]any{"part": "cancel-log"})
 	}
 }
@@ -941,9 +1096,9 @@ func replayCancel(r *mon.Run, c *CancelCase) {
 		r.Inconclusive("cancellation server setup: " + err.Error())
 		return
 	}
-	defer s.srv.Close()
+	defer s.Close()
 	c.normalise()
-	out := s.runScenario(c)
+	out := s.runScenario(c, nil)
 	r.Eval(1)
 	if out.inconclusive != "" {
 		r.Inconclusive(out.inconclusive)
